@@ -286,6 +286,10 @@ def run(ctx):
     helpers.numpy_contracts_standin(ctx, py, "C09")
     ctx.guard(_standin, ctx, py)
 
+    # frame of the modules under contract (no state kept between calls, arguments left alone): same analysis as C19
+    from props import C19 as _C19
+    ctx.guard(_C19.frame_obligations, ctx, py, "C09", {'filters'})
+
 
 def _replay(py, name, cex, mode):
     if cex is None:
